@@ -6,12 +6,12 @@ SPEC = {'level': 'exploration',
  'stages': [{'kind': 'gen',
              'binary': 'vh_c22',
              'target': 'c22_mempool_history',
-             'cases_quick': 320,
-             'cases_thorough': 5000,
-             'min_cases_quick': 160,
+             'cases_quick': 600,
+             'cases_thorough': 7000,
+             'min_cases_quick': 300,
              'floors': {'reorg-with-sensitive-entry': 0.3, 'reorg-depth>=2': 0.2, 'mined-with-nonpool-txs': 0.25, 'replacement-happened': 0.1,
                         'package-accepted': 0.15, 'accepted-coinbase-spend': 0.2, 'accepted-locktime': 0.15, 'accepted-bip68': 0.15, 'time-jump': 0.2,
-                        'prioritise': 0.15, 'trim': 0.15, 'pool>=10': 0.1},
+                        'prioritise': 0.15, 'trim': 0.15, 'pool>=10': 0.1, 'with-CTxMemPool-check': 0.15},
              'rule': 'mempool histories with reorgs; non-trivial = a reorg happened while the pool or the disconnected blocks held a time-locked or coinbase-spending transaction'}]}
 
 META = {'level_text': 'Generated operation histories (submissions of single transactions and packages incl. RBF, TRUC, ephemeral dust, CPFP, timelocks and coinbase spends at their '
